@@ -325,6 +325,10 @@ def make_case(rng):
     cost = gen.random_cost(rng, coherent_only=False)
     if rng.random() < 0.25:
         cost["hgt"] = "inf"
+    if rng.random() < 0.08:
+        # integer unit costs that no double represents exactly (above 2**53, odd): they must come back digit for digit
+        for k in rng.sample(["spe", "dup", "floss", "sloss"], rng.randint(1, 2)):
+            cost[k] = rng.choice([2**53 + 1, 3 * 10**16 + 1, 10**18 + 7, 2**64 + 3, 10**22 + 1])
     syn = gen.random_syntenies(rng, gl, 4, ordered=True, consistent_p=1.0)
     if rng.random() < 0.5:
         # family names that differ only by zero padding / case / an embedded number: distinct families all the same
